@@ -316,10 +316,9 @@ class AstGen:
                     tries += 1
                 m["text"] = ("0x%x" % v) if (v >= 0 and r.below(3) == 0) else str(v)
                 m["value"] = v
-            if not flags:
-                if m["value"] in vals:
-                    continue
-                vals.add(m["value"])
+            if m["value"] in vals:      # duplicate option values are rejected by Validate
+                continue
+            vals.add(m["value"])
             if r.below(6) == 0:
                 m["dep"] = "gone"
             names.append((m["name"], m["value"]))
